@@ -7,7 +7,7 @@ HERE = os.path.dirname(os.path.dirname(os.path.abspath(__file__)))
 
 # id -> (technique, what the check decides, trusted / assumed)
 CLAIMED = {
-    'C05': ('closed-list store classification over resolved values (per-path reaching definitions) + effect analysis of the prange body + affine / per-axis view normal forms + quasi-polynomial comparison of condensed offsets + call-site operand agreement (custom Cython front end) + C20 selection rules re-evaluated',
+    'C05': ('closed-list store classification over resolved values (per-path reaching definitions) + effect analysis of the prange body + affine / per-axis view normal forms + quasi-polynomial comparison of condensed offsets + call-site operand agreement (custom Cython front end) + exit rule (guards on the way to each work site evaluated for n = 0..5: no early return leaves cells of a non-empty output unwritten) + C20 selection rules re-evaluated',
             'Decides that every output cell is the unmodified value of the one kernel, a copy of a cell or zero (no arithmetic, buffers float32, returned unchanged); that the prange body writes only out[<induction variable>] with function-local scalars and a pure nogil callee '
             '(race-free for every schedule and thread count); fast/slow path pairing; that one slice selects reference chunk and output columns; that chunk_slices tiles [0,n); pairwise column slice, mirror, condensed offsets.',
             'Cython prange privatisation; NumPy view write-through; kernel correctness is C02.'),
@@ -27,11 +27,11 @@ CLAIMED = {
             'Decides that attribute names and datasets written equal those read and cover every SignaturesMeta field with None<->Empty symmetry, the list-path bounds (0, cumsum) and fill slice equal the reader slice, dtype preservation and id kinds, '
             'that the magic and marker guards raising SignaturesFileError dominate opening/construction, raising read forms, kmerspec round trip, create()/dump shape.',
             'h5py stores dtypes/strings/compression losslessly.'),
-    'C16': ('alignment provenance per side by definition source + call-site orientation agreement + writer rules + option types keep the path as typed + C05 store rules, C14 parameter rules and C01-K7 (kernel precondition) re-evaluated',
+    'C16': ('alignment provenance per side by definition source + call-site orientation agreement + writer rules + option types keep the path as typed + C05 store rules, C14 parameter rules and the C01 signature premises K1-K7 re-evaluated; options taken as effective arguments (written at the call, else the default of the resolved signature)',
             'Decides that each id list is assigned in the same branch as and derived from its source, square mode reuses the query ids, row labels go with the first matrix operand and column labels with the second, computed signatures descend from the same get_sequence_files call as their labels with the reconciled kspec, '
             'and the CSV writer (header, strict zip of ids and rows, fixed 0.4f format, csv.writer).',
             'format() rounding; C05/C13/C14/C15 for cells, order, parameters, symmetry.'),
-    'C17': ('symbolic execution of one row of linkage_to_bio_tree (affine index / height differences, both children) + call-chain operand agreement by value flow + option types keep the path as typed + C05 pairwise rules and C01-K7 re-evaluated',
+    'C17': ('symbolic execution of one row of linkage_to_bio_tree (affine index / height differences, both children) + call-chain operand agreement by value flow + option types keep the path as typed + C05 pairwise rules and the C01 signature premises K1-K7 re-evaluated; options taken as effective arguments',
             "Decides average linkage on the condensed form of the given matrix with no other option; for both children branch length = parent height - child height with child height 0 for leaves else link[child - nleaves, 2]; one clade per row holding its two children; leaves per label in order with the count asserted; root = last clade; "
             'labels and signatures from one source; pairwise (non-flat) matrix unchanged through hclust to Newick.',
             'SciPy average linkage = UPGMA with monotone heights and node numbering n + row; Biopython Newick writer.'),
@@ -59,7 +59,7 @@ CLAIMED = {
             'Decides that the closest-genomes order is produced by a stable ascending sort of the whole distance row (found the repaired unstable-argsort defect), truncated by a prefix slice afterwards, that the closest match is the first minimum, '
             'that every entry pairs genome and distance through the one index and derives its taxon from that distance; every other ordering call in the package is classified.',
             "np.argsort kind='stable' is stable, the default is not; np.argmin first minimum."),
-    'C10': ('program-dependence rule on the consensus fold (conflict latch) + structural guard rule on find_matches + bounded abstract evaluation of the parsed consensus_taxon / find_matches / strict classify on every rooted forest up to 5 nodes (6 in the thorough tier) x every order of up to 4 taxa, monotone and non-monotone thresholds',
+    'C10': ('program-dependence rule on the consensus fold (conflict latch) + structural guard rule on find_matches + bounded abstract evaluation of the parsed consensus_taxon / find_matches / strict classify on every rooted forest up to 5 nodes (6 in the thorough tier) x every order of up to 4 taxa, monotone and non-monotone thresholds + wiring rule for the --strict flag (click option -> QueryParams -> query_cmd -> query_parse -> query)',
             'NOTE: N1-N5 are decided by interpreting the parsed functions on a finite forest domain (bounded, DESIGN.md 12) next to the two structural rules. Decides necessary conditions: the fold cannot re-specialise after a conflict (latch initialised, set at every truncation, never cleared, tested before descending - found the repaired order-dependence defect), '
             'others / empty / no-common-ancestor exits, warning exactly under the conflicting set, failure exactly under no consensus, primary match = nearest candidate at or below the consensus.',
             'Correctness of trunk.index / suffix slicing as an LCA search for every forest is a hand argument (necessary conditions only).'),
@@ -76,7 +76,7 @@ CLAIMED = {
     'C02': ('abstract interpretation of the merge kernel over the ordering domain {<,=,>} + affine normal forms + fused-type agreement + the Python dtype gate decided as a table over the complete domain of integer/float/bool dtypes (custom Cython front end)',
             'Decides that the kernel counts the union exactly for every pair of sorted arrays (the data are provably touched only through '
             'comparisons, so three orderings are exhaustive), the tail and zero-guard, that the result is one binary32 division of exactly '
-            'converted integers (2u-N-M)/u, the independent unsigned fused types, wrappers, and that every kernel operand passes the dtype gate as the data the caller passed (not after a re-collection into a first-element-dtype array).',
+            'converted integers (2u-N-M)/u, the independent unsigned fused types, wrappers, and that every kernel operand passes the dtype gate as the data the caller passed, that the cells the bulk functions report are kernel values stored in the returned buffer (C05-B1 re-evaluated) (not after a re-collection into a first-element-dtype array).',
             'C usual arithmetic conversions between unsigned widths; IEEE-754 correctly rounded division; sets < 2^24 elements.'),
     'C15': ('role-swap invariance of the facts extracted by the C02 abstract interpretation + the C02 kernel and dtype-gate rules and the C05 bulk-entry rules re-evaluated',
             'Decides bit-for-bit symmetry structurally (loop condition, ordering table, loads, tail and numerator are invariant under swapping the '
